@@ -8,7 +8,7 @@ open Sio.Sched
 /-
   Line protocol of `sd_sched` (`siodriver sched`).
 
-  in : {"tasks": [{"kind": "api"|"clientDisc"|"lost"|"conn", "ns": [n, …]}, …],
+  in : {"tasks": [{"kind": "api"|"clientDisc"|"lost"|"conn"|"refuse", "ns": [n, …]}, …],
         "conn": [n, …]      namespaces (numbers) on which the sid is connected at the start,
         "others": [n, …]    namespaces kept alive by other clients,
         "sched": [i, …]     task indices,
@@ -18,6 +18,8 @@ open Sio.Sched
         "contained": k                   exceptions swallowed by _handle_eio_disconnect,
         "residue": [[n, mem, pend], …]   what is left in rooms / pending_disconnect,
         "sends":   [[n, k], …],
+        "refusals": [[n, k], …]          refusals (CONNECT_ERROR / refusing DISCONNECT) sent by refusing CONNECTs,
+        "marks":   [[n, [kind, …]], …]   kinds of the tasks that passed the gate (pre_disconnect), oldest first,
         "pcs":     [pc, …]               final program counters,
         "trace":   [pc, …]               pc of the scheduled task after each step ("-" = no such task),
         "serial":  bool                  gateSerial (threads reading of the schedule),
@@ -29,10 +31,12 @@ def kindOf (s : String) : Except String Kind :=
   else if s == "clientDisc" then pure .clientDisc
   else if s == "lost" then pure .lost
   else if s == "conn" then pure .conn
+  else if s == "refuse" then pure .refuse
   else throw s!"bad kind {s}"
 
 def kindName : Kind → String
   | .api => "api" | .clientDisc => "clientDisc" | .lost => "lost" | .conn => "conn"
+  | .refuse => "refuse"
 
 def pcName : Pc → String
   | .check => "check" | .mark => "mark" | .send => "send" | .handler => "handler"
@@ -78,6 +82,9 @@ def handle (_ : Unit) (j : Json) : Except String (Unit × Json) := do
     ("residue", Json.arr (univ.map (fun n =>
       Json.arr #[natJ n, Json.bool (final.sh.mem n), natJ (final.sh.pend n)])).toArray),
     ("sends", Json.arr (univ.map (fun n => Json.arr #[natJ n, natJ (final.sh.sends n)])).toArray),
+    ("refusals", Json.arr (univ.map (fun n => Json.arr #[natJ n, natJ (final.sh.refusals n)])).toArray),
+    ("marks", Json.arr (univ.map (fun n =>
+      Json.arr #[natJ n, Json.arr ((final.sh.marks n).reverse.map (fun k => Json.str (kindName k))).toArray])).toArray),
     ("pcs", Json.arr (final.tasks.map (fun t => Json.str (pcName t.pc))).toArray),
     ("trace", Json.arr trace.reverse.toArray),
     ("serial", Json.bool (gateSerial st0 sched)),
